@@ -6,7 +6,8 @@ CONSTANTS
   Peek = 0
   MaxTimeouts = 0
   Priors = {0}
+  DispatchBound = 2
   Defects = {"DrainHeader"}
 SPECIFICATION Spec
-INVARIANTS InOrderOnce NoEarly Prompt Consumed PrefaceOnce NoError NoByteLost SameForEveryCut
+INVARIANTS InOrderOnce NoEarly Prompt Consumed PrefaceOnce NoError NoByteLost LoopUntilDry SameForEveryCut
 CHECK_DEADLOCK FALSE
